@@ -190,6 +190,26 @@ func (fc *fnCtx) extFlatten(fd *ast.FuncDecl) error {
 						}
 					}
 				}
+				// r[k].getG() -> r_g[k]
+				if sel, ok := x.Fun.(*ast.SelectorExpr); ok && len(x.Args) == 0 {
+					if ix, ok := sel.X.(*ast.IndexExpr); ok {
+						if id, ok := ix.X.(*ast.Ident); ok {
+							if p, ok := fs.paths[id.Name]; ok && p.slice {
+								if f, ok := trivialGetter(fc.p, sel); ok {
+									for j, g := range p.fields {
+										if g == f {
+											ne := &ast.IndexExpr{X: fc.synth(id.Name+"_"+g, types.NewSlice(p.ftypes[j]), false), Index: ix.Index}
+											fc.p.TypesInfo.Types[ne] = types.TypeAndValue{Type: p.ftypes[j]}
+											c.Replace(ne)
+											changed = true
+											return true
+										}
+									}
+								}
+							}
+						}
+					}
+				}
 				// len(r) of a slice of structs: the length of its first field list
 				if fid, ok := x.Fun.(*ast.Ident); ok && fid.Name == "len" && len(x.Args) == 1 {
 					if id, ok := x.Args[0].(*ast.Ident); ok {
